@@ -24,7 +24,7 @@ def file_text(kind, m, votes, ncat=0):
             lines.append("%d: %s" % (mult, ",".join("{" + ",".join(map(str, c)) + "}" for c in order)))
         else:
             lines.append("%d: %s" % (mult, ",".join(str(c[0]) if len(c) == 1 else "{" + ",".join(map(str, c)) + "}" for c in order)))
-    return "\n".join(lines) + "\n"
+    return "\n".join(lines) + "\n" + ("\n" if not votes else "")      # (a header-only file needs one trailing empty line to be parsed)
 
 class C19(Prop):
     translators = ['preflib']   # the five converters regenerated from preflib_utils.py on every run
@@ -90,6 +90,12 @@ class C19(Prop):
                 seen.add(key); votes.append((rng.randint(1, 3), order))
             wrong = [k for k in ("soc", "soi", "toc", "toi") if k != kind][(i // 4) % 3]
             yield dict(entry="preflib_%s_to_profile" % wrong, family=kind + "_lookalike_wrongtype", kind=kind, m=m, votes=votes, ncat=0, tb=TBS[i % 3], call=wrong, seed=i, twice=False)
+
+        # degenerate containers: an instance without a single ballot (header only), handed to a converter of ANOTHER type - still the wrong type
+        for i in range(12 if tier == "quick" else 60):
+            kind = ["soi", "toc", "toi", "soc"][i % 4]; m = rng.randint(1, 5)
+            wrong = [k for k in ("soc", "soi", "toc", "toi") if k != kind][(i // 4) % 3]
+            yield dict(entry="preflib_%s_to_profile" % wrong, family=kind + "_empty_wrongtype", kind=kind, m=m, votes=[], ncat=0, tb=TBS[i % 3], call=wrong, seed=i, twice=False)
 
     def run(self, case):
         from preflibtools.instances import OrdinalInstance, CategoricalInstance
